@@ -41,9 +41,12 @@ check("C01", "rocq-core", "proof",
       "if it is a delete (payload invariant: every store write of every handler under every storage outcome copies a request's bytes; "
       "fetched documents copy the peer's). The pre-fix acceptance rule is refuted (lagging node serves a deleted "
       "document). The task distributor (Distributor.v): every batch is addressed to the whole live map of its tick, which is a function of the "
-      "membership changes alone (dropping a peer after a failed batch is refuted). Model tied to the code by 2-4 real in-process nodes (hx-cluster): named schedules + random schedules, compared after every "
+      "membership changes alone (dropping a peer after a failed batch is refuted). The poller's sync plan (TsDiff.v, PollerPlan.v, TrackerMulti.v): "
+      "the keyspaces it synchronises are exactly those whose recorded and reported stamps differ; in every keyspace the recorded stamp never "
+      "exceeds what was pulled, so a skipped keyspace is complete and one poll after the last write pulls every write of every keyspace; a peer "
+      "that left or moved is re-synchronised in full. Model tied to the code by 2-4 real in-process nodes (hx-cluster): named schedules + random schedules, compared after every "
       "event, with the convergence oracle (ids, bytes, stamps) at quiescence; includes exchanges racing with writes on the polled node and "
-      "exchanges whose storage writes fail.",
+      "exchanges whose storage writes fail; the poller's real KeyspaceTracker against TsDiff.v/PollerPlan.v (hx-tsdiff).",
       "Trusted: Coq kernel, models Orswot/Actor/Cluster.v, extraction + driver, the Rust executor and the in-process transport / wall-clock hooks. "
       "Events of the trace are atomic handler executions (a node restarting in the middle of a request is C07's theorem, not part of this "
       "trace); storage calls inside the trace succeed (failures: C02). Chitchat, timers and the poller's scheduling are not modelled.")
@@ -139,7 +142,7 @@ check("C11", "rocq-core", "proof",
       "earlier reply to any task (so replies are pairwise distinct and each task's own results strictly increase), a request queued after an "
       "accepted registration of a remote stamp returns a greater stamp, and the actor dies exactly when send fails (drift / exhausted counter "
       "on a stalled clock) - characterised, not assumed away. All corollaries of the C09 step lemmas. Tied to clock.rs by exact sequential "
-      "comparison and by concurrent runs on current-thread and 4-thread runtimes with a stalled injected wall clock (hx-clock).",
+      "comparison (incl. callers that give up between request and reply) and by concurrent runs on current-thread and 4-thread runtimes with a stalled injected wall clock (hx-clock).",
       "Trusted: Coq kernel, model Hlc.v, extraction + driver, Rust executor, wall-clock hook; flume delivers each sender's requests in order. "
       "The concurrent runs sample the interleavings tokio produces; the theorems cover all of them.")
 check("C12", "rocq-frame", "proof",
@@ -163,7 +166,7 @@ check("C14", "rocq-rpclife", "other",
       "Specification automaton of the request life-cycle (coq/rpclife/RpcLife.v) with machine-checked theorems about its runs (at most one "
       "execution, Ok = own reply, no swap, timeout and 2 s connect bounds, result final, no panic; pending possible without a timeout); the real "
       "client/server are run in turmoil under seeded and bounded-exhaustive partition/hold/release/repair schedules and every observed trace must "
-      "be a run of the automaton; the property's own oracle is evaluated on every outcome.",
+      "be a run of the automaton; the property's own oracle is evaluated on every outcome. Timeouts: none, 0.3-3 s, a configured zero, a configured Duration::MAX.",
       "Theorems are about the automaton, not about hyper/h2/tokio/TCP; the code <-> automaton link is tested trace inclusion only. turmoil 0.4 "
       "semantics (silent drop, no retransmission); with the simulation feature one Channel's requests are serialised, so multiplexing is exercised "
       "only across two connections.",
